@@ -29,7 +29,8 @@ Lemma charwise_flags t : charwise t -> is_linew t = false /\ selection_type t = 
 Proof. intros [->| ->]; split; reflexivity. Qed.
 
 (* start of the range = the smaller end; end = the larger end, +1 when
-   inclusive, -1 when exclusive and the larger end sits in column 0 *)
+   inclusive, -1 when exclusive, the range is not empty and the larger end
+   sits in column 0 *)
 Lemma operator_range_charwise d o :
   charwise (ttype o) ->
   let lo := Z.min (tstart o) (tend o) in
@@ -37,43 +38,46 @@ Lemma operator_range_charwise d o :
   fst (operator_range d o) = lo /\
   (ttype o = INCL -> snd (operator_range d o) = hi + 1) /\
   (ttype o = EXCL -> snd (operator_range d o) = hi \/
-                     (snd (operator_range d o) = hi - 1 /\
+                     (snd (operator_range d o) = hi - 1 /\ lo < hi /\
                       snd (translate_index_to_position d (hi + dcur d)) = 0)).
 Proof.
   intros Hc lo hi. unfold operator_range, to_sorted.
   destruct (tstart o <? tend o) eqn:E.
   - assert (lo = tstart o) by (unfold lo; lia). assert (hi = tend o) by (unfold hi; lia).
     destruct Hc as [Ht|Ht]; rewrite Ht; cbn [is_excl is_incl is_linew andb fst snd].
-    + destruct (snd (translate_index_to_position d (tend o + dcur d)) =? 0) eqn:E2;
+    + rewrite E. cbn [andb].
+      destruct (snd (translate_index_to_position d (tend o + dcur d)) =? 0) eqn:E2;
         cbn [fst snd]; (split; [lia|]); (split; [discriminate|]); intros _.
-      * right. split; [lia|]. rewrite H0. lia.
+      * right. split; [lia|]. split; [lia|]. rewrite H0. lia.
       * left. lia.
     + cbn [fst snd]. split; [lia|]. split; [intros _; lia|discriminate].
   - assert (lo = tend o) by (unfold lo; lia). assert (hi = tstart o) by (unfold hi; lia).
     destruct Hc as [Ht|Ht]; rewrite Ht; cbn [is_excl is_incl is_linew andb fst snd].
-    + destruct (snd (translate_index_to_position d (tstart o + dcur d)) =? 0) eqn:E2;
-        cbn [fst snd]; (split; [lia|]); (split; [discriminate|]); intros _.
-      * right. split; [lia|]. rewrite H0. lia.
-      * left. lia.
+    + destruct (tend o <? tstart o) eqn:E1; cbn [andb].
+      * destruct (snd (translate_index_to_position d (tstart o + dcur d)) =? 0) eqn:E2;
+          cbn [fst snd]; (split; [lia|]); (split; [discriminate|]); intros _.
+        -- right. split; [lia|]. split; [lia|]. rewrite H0. lia.
+        -- left. lia.
+      * cbn [fst snd]. split; [lia|]. split; [discriminate|]. intros _. left. lia.
     + cbn [fst snd]. split; [lia|]. split; [intros _; lia|discriminate].
 Qed.
 
 (* a motion (one end is the cursor itself) yields a range that touches the
-   cursor: start <= 0 <= end, or - exclusive-column-0 rule - end = -1 with
-   the cursor in column 0 *)
+   cursor: start <= 0 <= end, or - exclusive-column-0 rule, backward motion
+   from column 0 - end = -1 *)
 Lemma operator_range_adjacent d o :
   charwise (ttype o) ->
   Z.min (tstart o) (tend o) <= 0 <= Z.max (tstart o) (tend o) ->
   fst (operator_range d o) <= 0 /\
   (0 <= snd (operator_range d o) \/
-   (snd (operator_range d o) = -1 /\ ttype o = EXCL /\
+   (snd (operator_range d o) = -1 /\ ttype o = EXCL /\ fst (operator_range d o) < 0 /\
     snd (translate_index_to_position d (dcur d)) = 0)).
 Proof.
   intros Hc Hb. destruct (operator_range_charwise d o Hc) as (H1 & H2 & H3).
   split; [lia|]. destruct Hc as [Ht|Ht].
-  - destruct (H3 Ht) as [H|[H H']]; [left; lia|].
+  - destruct (H3 Ht) as [H|[H [Hl H']]]; [left; lia|].
     destruct (Z.eq_dec (Z.max (tstart o) (tend o)) 0) as [Hz|Hz].
-    + right. rewrite Hz in *. split; [lia|]. split; [exact Ht|exact H'].
+    + right. rewrite Hz in *. split; [lia|]. split; [exact Ht|]. split; [lia|exact H'].
     + left. lia.
   - left. rewrite (H2 Ht). lia.
 Qed.
@@ -113,6 +117,9 @@ Proof.
   intros Hc a e Ha Hae He. unfold to_cut.
   destruct (operator_range (bdoc b) o) as [f t] eqn:Er. cbn [fst snd] in *.
   destruct (charwise_flags _ Hc) as [Hl Hs]. rewrite Hl, Hs.
+  assert (Hb : is_block (ttype o) = false) by (destruct Hc as [->| ->]; reflexivity).
+  rewrite Hb. cbn [negb andb orb].
+  destruct (t <=? f) eqn:Etf; [unfold a, e in *; lia|].
   replace (t + bcur b - 1) with (e - 1) by (unfold e; lia).
   replace (f + bcur b) with a by (unfold a; lia).
   destruct (len (btext b) <? e - 1) eqn:E; [lia|].
@@ -132,7 +139,8 @@ Lemma op_yank_reg_buf st o ev : vbuf (snd (op_yank_reg st o ev)) = vbuf st.
 Proof.
   unfold op_yank_reg. destruct (nth_error (ekeys ev) 1); [|reflexivity].
   destruct (is_regname z); [|reflexivity].
-  destruct (to_cut (vbuf st) o) as [[[t c] cd]|]; reflexivity.
+  destruct (to_cut (vbuf st) o) as [[[t c] cd]|]; [|reflexivity].
+  cbn [snd]. destruct (nonempty (ctext cd)); reflexivity.
 Qed.
 
 (* delete / change without register: exactly the span goes, the clipboard
@@ -267,87 +275,80 @@ Proof.
 Qed.
 
 (* ---------------------------------------------------------------------- *)
-(* The empty range: refuted as coded, proved for the repaired functions *)
+(* The empty range is a no-op (since fix f3ffc71) *)
 
 Definition st_of (text : str) (cur : Z) : vst := mkvst (mkbuf text cur) None None false.
 
-(* "abc def", cursor 0, TextObject(0) (what F/T/f/t/b/h... return on failure) *)
-Lemma empty_range_not_noop :
+Lemma to_cut_empty b o :
+  is_linew (ttype o) = false ->
+  snd (operator_range (bdoc b) o) <= fst (operator_range (bdoc b) o) ->
+  to_cut b o = Some (btext b, bcur b, mkcd [] (selection_type (ttype o))).
+Proof.
+  intros Hl H. unfold to_cut.
+  destruct (operator_range (bdoc b) o) as [f t]. cbn [fst snd] in H.
+  rewrite Hl. cbn [negb andb]. destruct (t <=? f) eqn:E; [reflexivity|lia].
+Qed.
+
+Lemma set_doc_same b : 0 <= bcur b -> set_doc (btext b) (bcur b) = b.
+Proof. intros H. unfold set_doc. rewrite Z.max_r by lia. destruct b; reflexivity. Qed.
+
+Lemma op_delete_empty delete_only with_register st o ev :
+  is_linew (ttype o) = false -> 0 <= bcur (vbuf st) ->
+  snd (operator_range (bdoc (vbuf st)) o) <= fst (operator_range (bdoc (vbuf st)) o) ->
+  op_delete delete_only with_register st o ev =
+  (0, mkvst (vbuf st) (vclip st) (vreg st) (if delete_only then vins st else true)).
+Proof.
+  intros Hl Hc H. unfold op_delete. rewrite to_cut_empty by assumption.
+  cbn [ctext nonempty]. rewrite set_doc_same by exact Hc.
+  destruct delete_only; reflexivity.
+Qed.
+
+Lemma op_yank_empty st o ev :
+  is_linew (ttype o) = false ->
+  snd (operator_range (bdoc (vbuf st)) o) <= fst (operator_range (bdoc (vbuf st)) o) ->
+  op_yank st o ev = (0, st).
+Proof.
+  intros Hl H. unfold op_yank. rewrite to_cut_empty by assumption. reflexivity.
+Qed.
+
+Lemma op_yank_reg_empty st o ev :
+  is_linew (ttype o) = false ->
+  snd (operator_range (bdoc (vbuf st)) o) <= fst (operator_range (bdoc (vbuf st)) o) ->
+  snd (op_yank_reg st o ev) = st.
+Proof.
+  intros Hl H. unfold op_yank_reg. destruct (nth_error (ekeys ev) 1); [|reflexivity].
+  destruct (is_regname z); [|reflexivity]. rewrite to_cut_empty by assumption. reflexivity.
+Qed.
+
+(* the failed exclusive object TextObject(0) has the empty range (0, 0) *)
+Lemma operator_range_mk1_0 d : operator_range d (mk1 0) = (0, 0).
+Proof. unfold operator_range, to_sorted, mk1. cbn [tstart tend ttype]. reflexivity. Qed.
+
+Lemma op_transform_failed_excl F st ev : op_transform F st (mk1 0) ev = (0, st).
+Proof. apply op_transform_empty. rewrite operator_range_mk1_0. cbn [fst snd]. lia. Qed.
+
+(* ---------------------------------------------------------------------- *)
+(* ... which the functions as they stood at the pinned commit did not satisfy *)
+
+(* "abc def", cursor 0, TextObject(0): the text grows *)
+Lemma empty_range_not_noop_pinned :
   exists text cur o,
     0 <= cur <= len text /\ ttype o = EXCL /\
     0 <= cur + tstart o <= len text /\ 0 <= cur + tend o <= len text /\
-    snd (operator_range (mkdoc text cur) o) <= fst (operator_range (mkdoc text cur) o) /\
-    snd (op_delete true false (st_of text cur) o (mkev 1 [])) <> st_of text cur /\
-    len text < len (btext (vbuf (snd (op_delete true false (st_of text cur) o (mkev 1 []))))).
+    snd (operator_range_pinned (mkdoc text cur) o) <= fst (operator_range_pinned (mkdoc text cur) o) /\
+    snd (op_delete_pinned true (st_of text cur) o) <> st_of text cur /\
+    len text < len (btext (vbuf (snd (op_delete_pinned true (st_of text cur) o)))).
 Proof.
   exists [97; 98; 99; 32; 100; 101; 102], 0, (mkto 0 0 EXCL).
   vm_compute. repeat split; try (intros H; discriminate H).
 Qed.
 
-(* mid-line: a failed exclusive motion deletes the two characters around the cursor *)
-Lemma empty_range_deletes_two :
+(* mid-line: the two characters around the cursor went *)
+Lemma empty_range_deletes_two_pinned :
   exists text cur o,
     ttype o = EXCL /\ tstart o = 0 /\ tend o = 0 /\
-    op_delete true false (st_of text cur) o (mkev 1 []) =
+    op_delete_pinned true (st_of text cur) o =
     (0, mkvst (mkbuf [97; 98; 99; 32; 100] 5) (Some (mkcd [101; 102] 0)) None false).
 Proof.
   exists [97; 98; 99; 32; 100; 101; 102], 6, (mkto 0 0 EXCL). vm_compute. repeat split.
-Qed.
-
-(* yank of an empty range overwrites the clipboard *)
-Lemma empty_range_yank_sets_clipboard :
-  exists text cur o,
-    ttype o = EXCL /\ tstart o = 0 /\ tend o = 0 /\
-    vclip (snd (op_yank (st_of text cur) o (mkev 1 []))) <> None.
-Proof.
-  exists [97; 98; 99; 32; 100; 101; 102], 6, (mkto 0 0 EXCL). vm_compute. repeat split. intros H; discriminate H.
-Qed.
-
-Lemma to_cut_fixed_empty b o :
-  is_linew (ttype o) = false ->
-  snd (operator_range_fixed (bdoc b) o) <= fst (operator_range_fixed (bdoc b) o) ->
-  to_cut_fixed b o = Some (btext b, bcur b, mkcd [] (selection_type (ttype o))).
-Proof.
-  intros Hl H. unfold to_cut_fixed.
-  destruct (operator_range_fixed (bdoc b) o) as [f t]. cbn [fst snd] in H.
-  rewrite Hl. cbn [negb andb]. destruct (t <=? f) eqn:E; [reflexivity|lia].
-Qed.
-
-Lemma op_delete_fixed_empty st o :
-  is_linew (ttype o) = false -> 0 <= bcur (vbuf st) ->
-  snd (operator_range_fixed (bdoc (vbuf st)) o) <= fst (operator_range_fixed (bdoc (vbuf st)) o) ->
-  op_delete_fixed true st o = (0, st).
-Proof.
-  intros Hl Hc H. unfold op_delete_fixed. rewrite to_cut_fixed_empty by assumption.
-  cbn [ctext nonempty]. unfold set_doc. rewrite Z.max_r by lia.
-  destruct st as [[t c] cl rg ins]. reflexivity.
-Qed.
-
-(* the repair does not change non-empty ranges *)
-Lemma operator_range_fixed_same d o :
-  tstart o <> tend o -> operator_range_fixed d o = operator_range d o.
-Proof.
-  intros H. unfold operator_range_fixed, operator_range, to_sorted.
-  destruct (tstart o <? tend o) eqn:E.
-  - rewrite E, andb_true_r. reflexivity.
-  - assert (E' : tend o <? tstart o = true) by lia. rewrite E', andb_true_r. reflexivity.
-Qed.
-
-Lemma to_cut_fixed_same b o :
-  tstart o <> tend o ->
-  fst (operator_range (bdoc b) o) < snd (operator_range (bdoc b) o) ->
-  to_cut_fixed b o = to_cut b o.
-Proof.
-  intros H Hr. unfold to_cut_fixed, to_cut. rewrite operator_range_fixed_same by exact H.
-  destruct (operator_range (bdoc b) o) as [f t]. cbn [fst snd] in Hr.
-  destruct (t <=? f) eqn:E; [lia|]. rewrite andb_false_r. reflexivity.
-Qed.
-
-(* the failed exclusive object TextObject(0): case operators ignore it *)
-Lemma op_transform_failed_excl F st ev : op_transform F st (mk1 0) ev = (0, st).
-Proof.
-  apply op_transform_empty. unfold operator_range, to_sorted, mk1. cbn [tstart tend ttype].
-  change (0 <? 0) with false. cbn [is_excl is_incl is_linew andb].
-  destruct (snd (translate_index_to_position (bdoc (vbuf st)) (0 + dcur (bdoc (vbuf st)))) =? 0);
-    cbn [fst snd]; lia.
 Qed.
